@@ -1218,6 +1218,13 @@ class Pool:
             now = now or monotonic()
             lost_time, lost_ret = job._worker_lost
             if now - lost_time > job._lost_worker_timeout:
+                pids = set(w.pid for w in self._pool)
+                if all(pid in pids for pid in job.worker_pids()):
+                    # the lost worker's result did arrive after all (no
+                    # unfinished part of the job belongs to a gone worker
+                    # any more): nothing was lost.
+                    job._worker_lost = None
+                    continue
                 self.mark_as_worker_lost(job, lost_ret)
 
         if shutdown and not len(self._pool):
